@@ -34,6 +34,14 @@ def run_lp(case):
         bf = [v / d for v, d in zip(b, rowden)]
         cf = [v / cden for v in c]
     events = []
+    if case.get("simplex_only"):
+        # bulk family: only the two solve_lp verdicts (cheap to validate), no interior point, no limits
+        for minimize in (True, False):
+            try:
+                events.append(_ev("simplex", solve_lp(cf, Af, bf, minimize=minimize), minimize, n))
+            except Exception as ex:  # noqa: BLE001
+                events.append({"e": "raise", "solver": "simplex", "what": type(ex).__name__})
+        return {"A": A, "b": b, "c": c, "m": m, "n": n, "cden": cden, "events": events, "input": case}
     pad = case.get("pad")
     if pad:
         # hundreds of implied rows (row i with a right-hand side raised by t >= 0) listed before the real ones: the same feasible
@@ -173,6 +181,15 @@ def gen_nearly_feasible(rng):
             A.append(row)
             b.append(rng.randint(3, 5))
     return {"A": A, "b": b, "c": [rng.randint(-3, 3) for _ in range(n)], "floats": rng.random() < 0.5}
+
+
+def gen_negative_rhs(rng):
+    """mostly negative right-hand sides, small mixed-sign rows: phase 1 works hard and many of these are infeasible - the verdict
+    rests on how phase 1 ends (artificials leaving, re-entering, sitting at zero)"""
+    n, m = rng.randint(2, 3), rng.randint(2, 4)
+    return {"A": [[rng.randint(-3, 3) for _ in range(n)] for _ in range(m)],
+            "b": [-rng.randint(1, 4) if rng.random() < 0.8 else rng.randint(0, 4) for _ in range(m)],
+            "c": [rng.randint(-3, 3) for _ in range(n)], "floats": rng.random() < 0.5, "simplex_only": True}
 
 
 def gen_cover(rng):
